@@ -17,14 +17,16 @@ def main():
                 bad += 1
         print("sany: %d modules parsed, %d failed" % (len(mods), bad))
         # warm go build cache (harness packages, with the verif tag and the overlay)
-        for h, pkg in (("table", "internal/pkg/table"), ("server", "pkg/server"), ("bgp", "pkg/packet/bgp")):
-            if not os.path.isdir(os.path.join(v.HARNESS, h)) or not any(
-                    f.endswith(".go") for f in os.listdir(os.path.join(v.HARNESS, h))):
-                continue
-            ov = v.overlay_for(sc, {h: pkg})
+        groups = {}
+        for h in sorted(os.listdir(v.HARNESS)):
+            pf = os.path.join(v.HARNESS, h, "PACKAGE")
+            if os.path.exists(pf):
+                groups.setdefault(open(pf).read().strip(), {})[h] = open(pf).read().strip()
+        for pkg, m in groups.items():
+            ov = v.overlay_for(sc, m)
             rc, out = v.go_test(sc, pkg, ov, "^$", timeout=1500)
             if rc != 0:
-                print("go build of harness %s failed:\n%s" % (h, out[-3000:]))
+                print("go build of harness for %s failed:\n%s" % (pkg, out[-3000:]))
                 bad += 1
         sys.exit(1 if bad else 0)
     finally:
